@@ -99,3 +99,23 @@ Proof.
   - rewrite xorv_length; lia.
   - now apply lincomb_xorv.
 Qed.
+
+(* ---- a checkable certificate for the negative answer: a functional w that vanishes on every
+   generator but not on v ---- *)
+Definition not_in_span_cert (gens : list bsf) (w v : bsf) : bool :=
+  forallb (fun g => negb (dot g w)) gens && dot v w.
+Lemma dot_lincomb n w : forall cs gens, Forall (fun g => length g = n) gens ->
+  (forall g, In g gens -> dot g w = false) -> dot (lincomb n cs gens) w = false.
+Proof.
+  induction cs as [|c cs IH]; intros [|g gens] Hl Hz; cbn; try apply dot_zeros_l.
+  inversion Hl as [|? ? Hg Hgs]; subst.
+  assert (IH' : dot (lincomb (length g) cs gens) w = false) by (apply IH; auto; intros; apply Hz; cbn; auto).
+  destruct c; auto. rewrite dot_xorv_l by (now rewrite lincomb_length). rewrite IH', (Hz g) by (cbn; auto). reflexivity.
+Qed.
+Theorem not_in_span_cert_sound n gens w v : Forall (fun g => length g = n) gens ->
+  not_in_span_cert gens w v = true -> ~ in_spanP n gens v.
+Proof.
+  intros Hl H (cs & _ & E). unfold not_in_span_cert in H. apply andb_true_iff in H. destruct H as [H1 H2].
+  rewrite forallb_forall in H1. rewrite <- E in H2. rewrite dot_lincomb in H2; auto; [discriminate|].
+  intros g Hg. specialize (H1 g Hg). now destruct (dot g w).
+Qed.
